@@ -1,1 +1,47 @@
-//! Hooks for property C01 (empty until needed).
+//! Hooks for property C01: drive the real `Packer` / `Indexer` pair with scripted blobs.
+//!
+//! One `Indexer` (as in one backup / copy run) is shared by a sequence of packers. Every
+//! segment creates a `Packer` of the given blob type with a fixed pack size, hands it the
+//! blobs in order (`Packer::add`), and finalizes it (all packs written and indexed) before
+//! the next segment starts. The ids are taken as given (they need not be hashes).
+use bytes::Bytes;
+
+use crate::{
+    blob::{
+        BlobId, BlobType,
+        packer::{PackSizer, Packer},
+    },
+    error::RusticResult,
+    id::Id,
+    index::indexer::Indexer,
+    repository::{Open, Repository},
+};
+
+/// Runs the segments `(is_tree, blobs)` against the repository's backend and saves the index.
+pub fn run_packer_segments<S: Open>(
+    repo: &Repository<S>,
+    pack_size: u32,
+    segments: &[(bool, Vec<(Id, Vec<u8>)>)],
+) -> RusticResult<()> {
+    let be = repo.dbe().clone();
+    let indexer = Indexer::new(be.clone()).into_shared();
+    for (is_tree, blobs) in segments {
+        let tpe = if *is_tree {
+            BlobType::Tree
+        } else {
+            BlobType::Data
+        };
+        let packer = Packer::new(
+            be.clone(),
+            tpe,
+            indexer.clone(),
+            PackSizer::fixed(pack_size),
+        )?;
+        for (id, data) in blobs {
+            packer.add(Bytes::copy_from_slice(data), BlobId::from(*id))?;
+        }
+        _ = packer.finalize()?;
+    }
+    indexer.write().unwrap().finalize()?;
+    Ok(())
+}
